@@ -315,13 +315,18 @@ func (h *Handler) handleMessage(ss *ShellStream, data []byte, flags uint8) {
 
 // handleStdin writes stdin data to the session.
 func (h *Handler) handleStdin(ss *ShellStream, data []byte) {
+	// The write blocks while the process does not read its stdin. It must not
+	// hold ss.mu meanwhile: the output pumps take ss.mu on every iteration, so
+	// a process that stops reading stdin until its output is drained (anything
+	// that echoes) would never be drained.
 	ss.mu.Lock()
-	defer ss.mu.Unlock()
+	ptySession, session := ss.PTYSession, ss.Session
+	ss.mu.Unlock()
 
-	if ss.PTYSession != nil {
-		ss.PTYSession.Write(data)
-	} else if ss.Session != nil {
-		ss.Session.Stdin().Write(data)
+	if ptySession != nil {
+		ptySession.Write(data)
+	} else if session != nil {
+		session.Stdin().Write(data)
 	}
 }
 
